@@ -29,7 +29,6 @@ Proof.
 Qed.
 
 (* ---- hexadecimal ---- *)
-Definition is_nilb {A} (l : list A) : bool := match l with [] => true | _ => false end.
 Fixpoint drop_zeros (s : bytes) : bytes :=
   match s with
   | [] => []
